@@ -156,14 +156,40 @@ def gen_invalid(rnd, rm):
         if isinstance(sp.parent, R.RSpace):
             return dict(o, space=path, base=sp.parent.path())
         return None
-    if kind == "add_bases_kind_conflict":
-        for t in spaces:
-            if t is sp or t in sp.bases or t.is_within(sp) or sp.is_within(t):
+    if kind in ("add_bases_kind_conflict", "add_bases_kind_conflict_in_sub"):
+        # the clash may be with the space itself or (…_in_sub) only with one of the spaces deriving from it
+        holders = [sp] if kind == "add_bases_kind_conflict" else rm.subs_of(sp)
+        for t in rnd.sample(spaces, len(spaces)):
+            if t is sp or t in R.mro(sp) or sp in R.mro(t) or t.is_within(sp) or sp.is_within(t):
                 continue
             tm = R.members(t)
-            if (set(tm["cells"]) & (set(mem["refs"]) | set(sp.children))) or (set(tm["refs"]) & set(mem["cells"])):
-                return dict(o, space=path, base=t.path())
+            for h in holders:
+                if t in R.mro(h) or h.is_within(t) or t.is_within(h):
+                    continue
+                hm = R.members(h)
+                if _kinds_clash(tm, t, hm, h):
+                    return dict(o, bad="add_bases_kind_conflict", space=path, base=t.path())
         return None
+    if kind == "new_space_kind_conflict":
+        # a new space from two bases that use one name for different kinds of member
+        for a in rnd.sample(spaces, len(spaces)):
+            am = R.members(a)
+            for b in rnd.sample(spaces, len(spaces)):
+                if b is a or b in R.mro(a) or a in R.mro(b) or a.is_within(b) or b.is_within(a):
+                    continue
+                if _kinds_clash(am, a, R.members(b), b):
+                    return dict(o, name="KN%d" % rnd.randrange(10 ** 6), bases=[a.path(), b.path()])
+        return None
+    if kind == "new_space_refs_conflict":
+        n = pick(rnd, list(mem["cells"]) + list(sp.children))
+        return n and dict(o, name="KR%d" % rnd.randrange(10 ** 6), bases=[path], refs={n: 1})
+    if kind == "new_cells_funcname_clash":
+        # no name given: the cells is named after its formula
+        cands = list(mem["refs"]) + list(sp.children)
+        for s in rm.subs_of(sp):
+            cands += list(s.refs) + list(s.children)
+        n = pick(rnd, [x for x in cands if x not in mem["cells"] and x.isidentifier() and not x.startswith("_")])
+        return n and dict(o, space=path, name=n)
     if kind == "remove_bases_not_base":
         t = pick(rnd, [x for x in tops if x is not sp and x not in sp.bases])
         return t and dict(o, space=path, base=t.path())
@@ -226,13 +252,21 @@ def gen_invalid(rnd, rm):
     return None
 
 
+def _kinds_clash(am, a, bm, b):
+    """do the members of two spaces use one name for different kinds of thing?"""
+    ka = [set(am["cells"]), set(am["refs"]), set(a.children)]
+    kb = [set(bm["cells"]), set(bm["refs"]), set(b.children)]
+    return any(ka[i] & kb[j] for i in range(3) for j in range(3) if i != j)
+
+
 KINDS = ["new_space_badname", "new_cells_badname", "rename_cells_badname", "rename_space_badname",
          "rename_model_badname", "set_ref_badname", "new_cells_clash", "new_space_clash", "model_new_space_clash",
          "model_ref_clash_space", "rename_cells_clash", "rename_cells_clash_sub_cells", "rename_cells_clash_sub_member",
          "rename_derived_cells", "rename_space_clash",
          "ref_clash_cells", "ref_clash_sub_member", "cells_clash_sub_member", "setattr_nonscalar_cells",
          "add_bases_self", "add_bases_cycle", "add_bases_bad_mro", "new_space_bad_mro", "new_space_cyclic_parent",
-         "add_bases_child", "add_bases_parent", "add_bases_kind_conflict", "new_space_kind_conflict", "add_bases_relref_scope", "new_space_relref_scope", "remove_bases_not_base",
+         "add_bases_child", "add_bases_parent", "add_bases_kind_conflict", "add_bases_kind_conflict_in_sub", "new_space_kind_conflict",
+         "new_space_refs_conflict", "new_cells_funcname_clash", "add_bases_relref_scope", "new_space_relref_scope", "remove_bases_not_base",
          "del_derived_cells", "del_derived_ref", "del_missing", "del_special", "del_model_ref_via_space",
          "formula_syntax", "formula_not_function", "formula_two_statements", "formula_async", "formula_int",
          "formula_two_lambdas", "formula_funcobj_global_default", "formula_funcobj_two_lambdas", "new_cells_syntax", "new_cells_not_function", "space_formula_syntax",
@@ -296,6 +330,10 @@ def apply_invalid(w, o):
             g(o["space"]).add_bases(*[g(b) for b in o["bases"]])
         elif k in ("new_space_bad_mro", "new_space_kind_conflict", "new_space_relref_scope"):
             m.new_space(o["name"], bases=[g(b) for b in o["bases"]])
+        elif k == "new_space_refs_conflict":
+            m.new_space(o["name"], bases=[g(b) for b in o["bases"]], refs=dict(o["refs"]))
+        elif k == "new_cells_funcname_clash":
+            g(o["space"]).new_cells(formula="def %s(x):\n    return x" % o["name"])
         elif k == "new_space_cyclic_parent":
             g(o["parent"]).new_space(o["name"], bases=[g(b) for b in o["bases"]])
         elif k == "remove_bases_not_base":
